@@ -98,6 +98,11 @@ pub enum OpKind {
     IntGe,
     FltLt,
     StrEq,
+    IntLe,
+    IntGt,
+    IntLt,
+    FltGe,
+    FltLeRev,
 }
 
 pub fn operand_text(kind: OpKind, name: &str, i: usize) -> String {
@@ -110,6 +115,11 @@ pub fn operand_text(kind: OpKind, name: &str, i: usize) -> String {
         OpKind::IntGe => format!("int(g{}) >= 1", i),
         OpKind::FltLt => format!("flt(g{}) < 1.5", i),
         OpKind::StrEq => format!("str(g{}) == str(h{})", i, i),
+        OpKind::IntLe => format!("int(g{}) <= 1", i),
+        OpKind::IntGt => format!("int(g{}) > 1", i),
+        OpKind::IntLt => format!("1 < int(g{})", i),
+        OpKind::FltGe => format!("flt(g{}) >= 1.5", i),
+        OpKind::FltLeRev => format!("1.5 <= flt(g{})", i),
     }
 }
 
@@ -128,9 +138,19 @@ pub fn doc_for(kinds: &[OpKind], asg: &[u8]) -> DVal {
                 1 => f.push((format!("g{}", i), DVal::UInt(2))),
                 _ => {}
             },
-            OpKind::IntGe => match a {
+            OpKind::IntGe | OpKind::IntGt | OpKind::IntLt => match a {
                 0 => f.push((format!("g{}", i), DVal::UInt(3))),
                 1 => f.push((format!("g{}", i), DVal::UInt(0))),
+                _ => {}
+            },
+            OpKind::IntLe => match a {
+                0 => f.push((format!("g{}", i), DVal::UInt(0))),
+                1 => f.push((format!("g{}", i), DVal::UInt(3))),
+                _ => {}
+            },
+            OpKind::FltGe | OpKind::FltLeRev => match a {
+                0 => f.push((format!("g{}", i), DVal::Float(2.5))),
+                1 => f.push((format!("g{}", i), DVal::Float(0.5))),
                 _ => {}
             },
             OpKind::FltLt => match a {
@@ -404,7 +424,7 @@ pub fn run(ctx: &Ctx) -> i32 {
                 let off = rng.below(NAMES.len());
                 let names: Vec<String> = (0..k).map(|i| NAMES[(i + off) % NAMES.len()].to_string()).collect();
                 let kinds: Vec<OpKind> = (0..k)
-                    .map(|_| *rng.pick(&[OpKind::Ident, OpKind::Ident, OpKind::Ident, OpKind::AllId, OpKind::OfId1, OpKind::IntEq, OpKind::IntEqRev, OpKind::IntGe, OpKind::FltLt, OpKind::StrEq]))
+                    .map(|_| *rng.pick(&[OpKind::Ident, OpKind::Ident, OpKind::Ident, OpKind::AllId, OpKind::OfId1, OpKind::IntEq, OpKind::IntEqRev, OpKind::IntGe, OpKind::FltLt, OpKind::StrEq, OpKind::IntLe, OpKind::IntGt, OpKind::IntLt, OpKind::FltGe, OpKind::FltLeRev]))
                     .collect();
                 let ops: Vec<String> = (0..k).map(|i| operand_text(kinds[i], &names[i], i)).collect();
                 let cond = random_written(&ops, &mut rng);
